@@ -115,6 +115,14 @@ CHECKS = {
          'throws codes carrying the table weight; masters weights non-increasing through V120.',
     note='Exhaustive for the finite core; arbitrary labels are sampled.',
     ref='DESIGN.md §4 C17'),
+ 'C19': dict(
+    technique='history testing (all short call sequences + Hypothesis rule-based state machine overflowing the caches) against a reference table computed in real fresh interpreter processes',
+    text='Every call of the universe (schema_valid x validators x expect_failure over all schema files; valid_against_schema over all samples x schemas x '
+         'expect_failure) is first executed alone in its own new interpreter with sockets blocked; then all length-1/2 histories over a reduced set, all '
+         '(x, y, x\') triples, eviction histories and state-machine histories of up to ~60 calls must reproduce those outcomes call by call; a sample of '
+         'histories is also run in real fresh processes.',
+    note='Inside a history "cleared caches" stands for a fresh process (validated by the real-process sample). Universe limited to the bundled files.',
+    ref='DESIGN.md §4 C19'),
  'C09': dict(
     technique='exhaustive enumeration of the finite domain with a two-sided round-trip oracle',
     text='All 48 table rows x all integer targets -10..1500 (72 528 cases) are enumerated in both tiers; the needed mark must score '
